@@ -181,9 +181,10 @@ CHECKS = {
         level="exploration",
         engine="W",
         technique="exhaustive enumeration of a finite product of exchange shapes over real connections with a differential oracle (direct vs through Helios) and a lock-step streaming script",
-        text="A finite product of exchange shapes (methods x request body sizes around the 32 KiB copy buffer x request framing x statuses incl. 103+200 / 204 / 304 / 3xx / 4xx / 5xx x response sizes x response framing {declared length, chunked, chunked with flushes}; a 12-shape core crossed with 6 paths x 4 queries, 11 request-header sets, 6 response-header sets, 3 backend base paths, all five strategies and the request-ID / trace middleware on/off with and without client-supplied IDs) is enumerated; each shape is exchanged twice with the same raw-socket client, directly with the scripted backend and through the real handler chain (buildHandler) behind the real server (createHTTPServer), and what the backend received (method, request-target bytes, end-to-end header multiset, X-Forwarded-For append, framing, body) and what the client received (interim responses, status, header multiset, framing class and Content-Length, body) must agree. 36 lock-step streaming scripts (backend blocks after each flush until the client has read that part through Helios) decide the flushing clause.",
+        text="A finite product of exchange shapes (methods x request body sizes around the 32 KiB copy buffer x request framing x statuses incl. 103+200 / 204 / 304 / 3xx / 4xx / 5xx x response sizes x response framing {declared length, chunked, chunked with flushes}; a 12-shape core crossed with 6 paths x 4 queries, 11 request-header sets, 6 response-header sets, 3 backend base paths, all five strategies and the request-ID / trace middleware on/off with and without client-supplied IDs) is enumerated; each shape is exchanged twice with the same raw-socket client, directly with the scripted backend and through the real handler chain (buildHandler) behind the real server (createHTTPServer), and what the backend received (method, request-target bytes, end-to-end header multiset, X-Forwarded-For append, framing, body) and what the client received (interim responses, status, header multiset, framing class and Content-Length, body) must agree. 36 lock-step streaming scripts (backend blocks after each flush until the client has read that part through Helios) decide the flushing clause; raw backend answers that break off detectably (missing final chunk, short chunk, fewer bytes than Content-Length) must stay detectably incomplete for the client; response trailers must arrive.",
         note="Sources are unmodified in this engine; time is real but only as a 10-20 s failure detector; a difference counts only if it reproduces five times; Date, hop-by-hop headers and the documented additions are normalised; inputs net/http itself re-spells (';' in queries, raw non-ASCII paths) are outside the alphabet.",
         jobs=[
+            dict(name="c01trunc", part="Truncated", pkg=MAIN, run="TestVerifC01Truncated", mode="plain", gomaxprocs=4, shards=1, timeout=dict(quick=600, thorough=3000)),
             dict(name="c01stream", part="Stream", pkg=MAIN, run="TestVerifC01Stream", mode="plain", gomaxprocs=4, shards=dict(quick=4, thorough=4), timeout=dict(quick=600, thorough=3000)),
             dict(name="c01w", part="W", pkg=MAIN, run="TestVerifC01", mode="plain", gomaxprocs=4, shards=dict(quick=8, thorough=12), timeout=dict(quick=600, thorough=3000)),
         ],
@@ -263,10 +264,11 @@ CHECKS = {
         level="fault_enumeration",
         engine="W+H",
         technique="exhaustive enumeration of fault sequences over real connections (scripted misbehaving backends, aborting clients) with a recovery oracle + explicit-state BFS over fault histories under virtual time with a recovery probe from every reachable state",
-        text="Wire part: for each configuration (breaker / passive checks / limiter / plugin chain logging,size_limit,gzip on or off; round_robin and least_connections, thorough all 32 combinations plus the other strategies) a fresh Helios instance with every configured timeout at 1 s is put in front of two raw TCP backends that misbehave as scripted; every fault of {refuse, hang before headers, reset after headers, short body, garbage status line, 500, stalled body, client aborts upload, client aborts download} is applied once, twice in sequence and twice concurrently (thorough: every ordered pair, triples for breaker configurations); each faulted request must end (response or closed connection) within 10 s, the server must log no handler panic, after the faults stop and window / breaker timeout elapse the last three of five probes must be 200 and both gauges must read 0. Virtual-time part: BFS over fault histories {ok, 500, refused, aborted, clock steps} with all eight feature combinations on the real wiring under the scheduler: no deadlock or panic on any step and a recovery probe from every reachable state.",
+        text="Wire part: for each configuration (breaker / passive checks / limiter / plugin chain logging,size_limit,gzip on or off; round_robin and least_connections, thorough all 32 combinations plus the other strategies) a fresh Helios instance with every configured timeout at 1 s is put in front of two raw TCP backends that misbehave as scripted; every fault of {refuse, hang before headers, reset after headers, short body, garbage status line, 500, stalled body, client aborts upload, client aborts download} is applied once, twice in sequence and twice concurrently (thorough: every ordered pair, triples for breaker configurations); each faulted request must end (response or closed connection) within 10 s, the server must log no handler panic, after the faults stop and window / breaker timeout elapse the last three of five probes must be 200 and both gauges must read 0. Virtual-time part: BFS over fault histories {ok, 500, refused, aborted, clock steps} with all eight feature combinations on the real wiring under the scheduler: no deadlock or panic on any step and a recovery probe from every reachable state; faulted requests (500 with ejection, aborted, refused) racing a probe round of the real health-check loop are explored under all interleavings up to the preemption bound (panic / fatal unlock / deadlock verdicts, recovery afterwards).",
         note="Real time is used only as a failure detector with a 10x margin; a failure must reproduce five times (the 12 s stalled-body case: twice) to be reported; the known finding about stalled response bodies is listed in KNOWN_FINDINGS.txt.",
         jobs=[
             dict(name="c03w", part="W", pkg=MAIN, run="TestVerifC03W", mode="plain", gomaxprocs=4, shards=dict(quick=16, thorough=16), timeout=dict(quick=900, thorough=3400)),
+            dict(name="c03conc", part="Conc", pkg=LB, run="TestVerifC03Conc", mode="instr", shards=dict(quick=8, thorough=16), timeout=dict(quick=600, thorough=3000)),
             dict(name="c03s", part="S", pkg=LB, run="TestVerifC03S", mode="instr", shards=dict(quick=16, thorough=16), timeout=dict(quick=600, thorough=3000)),
         ],
         assumptions=[],
